@@ -44,6 +44,7 @@ func (x *Exec) smtTextMode(o *Obligation, getValues []*Term, instantiate bool) s
 		goal = ts.Not(o.goal)
 	}
 	roots = append(roots, goal)
+	roots = append(roots, x.baseAxioms(roots)...)
 	if instantiate {
 		ic := &instCtx{ts: ts, cands: collectIndexTerms(roots, goal), ground: map[int][]*Term{}, gseen: map[int]bool{}}
 		for _, r := range roots {
@@ -317,5 +318,54 @@ func dischargeAll(results []*Result, outDir string, timeoutS int, workers int) m
 	}
 	close(ch)
 	wg.Wait()
+	return out
+}
+
+// baseAxioms: memory-model axioms for the base heap components that occur in
+// the query: every reference stored in a base (initial or havoced) component
+// was allocated before that component came into being.
+func (x *Exec) baseAxioms(roots []*Term) []*Term {
+	ts := x.w.ts
+	var out []*Term
+	leaves := collectLeaves(roots)
+	names := sortedKeys(leaves)
+	for _, n := range names {
+		srt := leaves[n]
+		t := ts.Leaf(n, srt)
+		al, ok := x.baseAlloc[t.id]
+		if !ok {
+			continue
+		}
+		// peel array levels
+		var bvars []*Term
+		cur := t
+		cs := srt
+		depth := 0
+		for {
+			is, es, isArr := cs.arrParts()
+			if !isArr || depth >= 2 {
+				break
+			}
+			b := ts.BoundAt(fmt.Sprintf("ax%d", depth), is, 200+depth)
+			bvars = append(bvars, b)
+			cur = ts.Select(cur, b)
+			cs = es
+			depth++
+		}
+		var fact *Term
+		switch cs {
+		case SInt:
+			fact = ts.And(x.w.intLe(ts.IntLit(0), cur), x.w.intLe(cur, al))
+		case SSlice:
+			fact = ts.And(x.w.intLe(ts.IntLit(0), x.w.sArr(cur)), x.w.intLe(x.w.sArr(cur), al))
+		default:
+			continue
+		}
+		if len(bvars) == 0 {
+			out = append(out, fact)
+		} else {
+			out = append(out, ts.Quant("forall", bvars, fact))
+		}
+	}
 	return out
 }
